@@ -187,3 +187,89 @@ func profileBytes(rng *core.RNG, n, kind int) []byte {
 	}
 	return b
 }
+
+// ---- small seed files for the prefix / fault / mutation workloads --------------
+
+// structuredProfile returns a small well-formed ICC profile (so that the
+// accessor chain Load -> ICCProfile -> Description has something to parse).
+func structuredProfile(rng *core.RNG, mlucRecs int) []byte {
+	var desc []byte
+	if mlucRecs == 0 {
+		desc = imggen.TextDescription("Seed profile " + latin1(rng, 8))
+	} else {
+		recs := make([]imggen.MlucRecord, mlucRecs)
+		for i := range recs {
+			recs[i] = imggen.MlucRecord{Lang: []string{"en", "de", "fr", "ja"}[i%4], Country: "US", Text: c17Text(rng, "ascii", 6+rng.Intn(10))}
+		}
+		desc, _ = imggen.Mluc(recs, nil, 0, 12)
+	}
+	b, _ := imggen.ICCSpec{Header: imggen.MinimalHeader(mlucRecs > 0), Tags: []imggen.ICCTag{
+		{Sig: "desc", Data: desc}, {Sig: "cprt", Data: rng.Bytes(24)}, {Sig: "wtpt", Data: rng.Bytes(20)}}}.Build()
+	return b
+}
+
+func smallSeeds(seed int64) []genFile {
+	rng := core.NewRNG(seed, "smallseeds")
+	var out []genFile
+	add := func(name string, b []byte, t imggen.Truth) { out = append(out, genFile{name, b, t}) }
+	// PNG without / with profile
+	{
+		s := pngSpecFor(300, 200, 6, 8, 0, rng)
+		s.Pre = []imggen.PNGChunk{{Type: "gAMA", Data: []byte{0, 0, 0xb1, 0x8f}}, {Type: "tEXt", Data: []byte("Comment\x00hello")}}
+		s.IDAT = rng.Bytes(120)
+		b, t := s.Build()
+		add("png-noicc", b, t)
+		s.ICC = &imggen.PNGICC{Name: "seed", Profile: structuredProfile(rng, 0), Level: 6}
+		b, t = s.Build()
+		add("png-icc-v2", b, t)
+		s.ICC = &imggen.PNGICC{Name: "a much longer profile name, still legal", Profile: structuredProfile(rng, 3), Level: 0}
+		s.Post = []imggen.PNGChunk{{Type: "pHYs", Data: []byte{0, 0, 1, 0, 0, 0, 1, 0, 1}}}
+		b, t = s.Build()
+		add("png-icc-v4-stored", b, t)
+	}
+	// JPEG without profile, 1 chunk, 3 chunks (permuted, after SOF)
+	{
+		tbl := imggen.RealTables()
+		base := imggen.JPEGSpec{Precision: 8, W: 640, H: 480, Comps: imggen.StdComps(3, 2, 2), Entropy: []byte{0x12, 0x34, 0xFF, 0x00, 0x56, 0xFF, 0xD0, 0x78}}
+		s := base
+		s.Before = append([]imggen.JPEGSeg{{Marker: 0xE0, Payload: []byte("JFIF\x00\x01\x02\x00\x00\x01\x00\x01\x00\x00"), Name: "APP0"}}, tbl...)
+		b, t := s.Build()
+		add("jpeg-noicc", b, t)
+		p := structuredProfile(rng, 2)
+		s = base
+		s.Progressive = true
+		s.Before = []imggen.JPEGSeg{{Marker: 0xE1, Payload: append([]byte("Exif\x00\x00"), rng.Bytes(60)...), Name: "APP1"}, imggen.ICCChunkSeg(1, 1, p), {Marker: 0xFE, Payload: []byte("comment"), Name: "COM"}}
+		s.ICC, s.ICCState = p, "ok"
+		b, t = s.Build()
+		add("jpeg-icc-1chunk", b, t)
+		parts := imggen.SplitICC(p, 3)
+		s = base
+		s.Before = []imggen.JPEGSeg{tbl[0]}
+		s.After = []imggen.JPEGSeg{imggen.ICCChunkSeg(3, 3, parts[2]), {Marker: 0xE2, Payload: []byte("FPXR\x00junk"), Name: "APP2x"}, imggen.ICCChunkSeg(1, 3, parts[0]), imggen.ICCChunkSeg(2, 3, parts[1])}
+		s.ICC, s.ICCState = p, "ok"
+		b, t = s.Build()
+		add("jpeg-icc-3chunks-after-sof", b, t)
+	}
+	// WebP simple / lossless / extended with and without profile
+	{
+		b, t := imggen.WebPSpec{Kind: "VP8", W: 550, H: 368, Payload: rng.Bytes(60)}.Build()
+		add("webp-vp8", b, t)
+		b, t = imggen.WebPSpec{Kind: "VP8L", W: 1000, H: 3, Alpha: true, Payload: rng.Bytes(40)}.Build()
+		add("webp-vp8l", b, t)
+		b, t = imggen.WebPSpec{Kind: "VP8X", W: 70000, H: 9, Flags: 0x10, Payload: rng.Bytes(30)}.Build()
+		add("webp-vp8x-noicc", b, t)
+		b, t = imggen.WebPSpec{Kind: "VP8X", W: 1234, H: 4321, ICC: structuredProfile(rng, 1), Payload: rng.Bytes(30), Extra: [][2]any{{"EXIF", rng.Bytes(11)}}}.Build()
+		add("webp-vp8x-icc", b, t)
+	}
+	// the repository's own small files
+	for _, rf := range realFiles() {
+		if len(rf.Bytes) <= 2048 {
+			out = append(out, genFile{"real:" + rf.Name, rf.Bytes, imggen.Truth{Format: rf.Format, NeedEnd: len(rf.Bytes)}})
+		}
+	}
+	// unrecognisable inputs
+	add("garbage", rng.Bytes(300), imggen.Truth{Format: "", NeedEnd: 0})
+	add("empty", nil, imggen.Truth{Format: ""})
+	add("text", []byte("This is not an image at all, just 60-odd bytes of plain text.\n"), imggen.Truth{})
+	return out
+}
